@@ -150,11 +150,11 @@ pub fn build_base(b: &BaseEvent) -> BuiltEvent {
         let cid = bi as u64 * 32 + ch as u64;
         let wf = signature(cid, n, *r.pick(&[3000i16, 2900, -500]), 150, -32768, 32764);
         let mut spec = AdcSpec::unsuppressed(board.mac, bi as u8, 128 + ch, wf);
-        if r.chance(1, 4) {
-            // suppression on, data kept
+        if n >= 68 && r.chance(1, 4) {
+            // suppression on, data kept: keep_last in 34..=n/2, so that (keep_last-1)*2-2 < n
             spec.suppression = true;
             spec.keep_bit = true;
-            spec.keep_last = (34 + r.below((n as u64 / 2).saturating_sub(33).max(1))) as u16;
+            spec.keep_last = r.range(34, n as u64 / 2) as u16;
             spec.requested_samples = (n + 2 + r.usize(0, 40)) as u16;
         }
         spec.event_ts = r.next_u64();
@@ -812,7 +812,14 @@ impl Check for C10Check {
                 stats.probe_n("wire_slots_checked", x.wires.len() as u64);
                 stats.probe_n("pad_slots_checked", x.pads.len() as u64);
             }
-            Err(_) => stats.probe("expected_rejection"),
+            Err(why) => {
+                stats.probe("expected_rejection");
+                if scn.fault.is_none() {
+                    // a base event that the reference itself rejects: legitimate only for run numbers
+                    // without maps/calibration - listed so that a vacuous workload is visible
+                    stats.probe(&format!("base_event_rejected_by_reference:{}", why.split(':').next().unwrap_or(why)));
+                }
+            }
         }
         let encoded = encode_event(&ev.banks);
         let mut log = H64::new();
@@ -852,6 +859,9 @@ impl Check for C10Check {
                         break 'outer;
                     }
                     Ok(g) => {
+                        if std::env::var_os("VERIF_DEBUG_C10").is_some() {
+                            eprintln!("order {os} key {hk:#x}: real {} / reference {:?}", match &g { Got::Ok { .. } => "Ok".to_string(), Got::Err(e) => format!("Err({e})") }, exp.as_ref().map(|_| "Ok").map_err(|e| e.clone()));
+                        }
                         log.u64(matches!(g, Got::Ok { .. }) as u64);
                         let cmp = compare(&g, &exp).filter(|(what, _)| {
                             // a rejected build is a violation only for a CONSISTENT event (no fault injected):
